@@ -415,14 +415,42 @@ class _BoomRes:
 
 
 def op_type(o):
-    return (o[1] if o[0] == "ingest" else 2 if o[0] == "ierr" else TOXIC if o[0] == "isens" else 1 if o[0] == "prune" else None)
+    return (o[1] if o[0] in ("ingest", "iodd") else 2 if o[0] == "ierr" else TOXIC if o[0] == "isens" else 1 if o[0] == "prune" else None)
+
+
+# ---- error paths: inputs on which a call RAISES inside the object -----------------------------------------------------
+# created_at values `datetime.now() - created_at` raises TypeError on (autophagy() then raises while such an item is queued)
+ODD_STAMPS = {"aware": lambda: _dt.datetime(2026, 1, 1, tzinfo=_dt.timezone.utc),      # what AutophagyDaemon uses for its own timestamps
+              "none": lambda: None,
+              "str": lambda: "2026-01-01T00:00:00",
+              "date": lambda: _dt.date(2026, 1, 1)}
+# values of retention_period that are not a timedelta (assigned by the caller on the live object; the constructor takes hours)
+BAD_PERIODS = {"int": 24, "none": None, "float": 1.5}
+# max_items values that are truthy and not an integer: self._queue[:max_items] raises TypeError
+BAD_MAX_ITEMS = {"float": 1.5, "str": "2", "list": [1]}
+
+
+class _Raised:
+    """what a call returned to its caller when it RAISED: the exception (the caller handles it and goes on)"""
+
+    def __init__(self, e):
+        self.e = e
+        self.text = f"{type(e).__name__}: {e}"[:160]
+
+
+def malformed_call(o, odd_queued, bad_retention):
+    """is o a call on a MALFORMED input - an argument / an item / a configuration value of the wrong type - i.e. a call that
+    may raise (the property says that every call returns, and says nothing about what is returned on such inputs): digest(<not an
+    integer>), or autophagy() while an item with a timezone-aware / non-datetime created_at is queued or retention_period is not a
+    timedelta"""
+    return o[0] == "dbad" or (o[0] == "auto" and bool(odd_queued or bad_retention))
 
 
 def eff_out(cfg, o, i):
     """the outcome (None = raises | list of keys) of the digester of the item that operation o ingests as event i.
     With scripted digesters: what the operation says.  With the DEFAULT digesters of lysosome.py (cfg['dd']) the outcome
     is decided by the content, so what the operation says is projected on what a content can make them do (dd_content)."""
-    raw = o[3] if o[0] == "ingest" else o[2] if o[0] == "twin" else o[1]
+    raw = o[3] if o[0] in ("ingest", "iodd") else o[2] if o[0] == "twin" else o[1]
     if not cfg.get("dd"):
         return raw
     t = op_type(o)
@@ -613,6 +641,16 @@ class Lin:
         if c is None:
             return
         self.after_call.append((tid, c["op"], self.view()[0][0]))
+        if isinstance(ret, _Raised):
+            # the call raised (the exception is with its caller now): one step of the model, outcome RRaised - placed where its
+            # critical section ended if it had one (`with` gave the lock back on the way out), else where it returned
+            if c["row"] is None:
+                if c["kind"] == "ingest":
+                    self.ing_order.append(c["slot"])
+                self.new_row(tid, ret=[4])
+            else:
+                c["row"]["ret"] = [4]
+            return
         if c["kind"] == "digest":
             r = {"digest": True, "success": int(ret.success is True), "disposed": ret.disposed,
                  "errs": err_ids(ret.errors), "rec": pairs(ret.recycled)}
@@ -659,6 +697,31 @@ def _spawn(fn):
     t = threading.Thread(target=target, daemon=True)
     t.start()
     return t, box
+
+
+def _spawn_call(fn, hold):
+    """a call of the history on a thread of its own -> (thread, box, done event).  A caller whose call RAISED handles the exception
+    and LIVES ON (it waits for `hold`, the end of the history): whatever the call did not give back - a lock level - stays owned by
+    a live thread, as it would in a program (the ident of a dead thread can be reused, and a re-entrant lock would then let a
+    stranger in)."""
+    box, done = {}, threading.Event()
+
+    def target():
+        try:
+            box["r"] = fn()
+        except BaseException as e:  # noqa
+            box["e"] = e
+            done.set()
+            if isinstance(e, Exception):
+                try:
+                    hold.wait(60)
+                except _Killed:
+                    pass
+            return
+        done.set()
+    t = threading.Thread(target=target, daemon=True)
+    t.start()
+    return t, box, done
 
 
 class _Killed(BaseException):
@@ -841,6 +904,8 @@ class Rig:
         self.tls = threading.local()    # .ps = the _Pass this thread runs; .op = the call of the history it is in
         self.free_run = False       # set when the rig is torn down: nobody parks any more
         self.spawned = []           # threads the driver ran calls on (a hung one is still alive when the rig is torn down)
+        self.hold = threading.Event()   # set when the rig is torn down: the callers whose call raised stop waiting
+        self.held_threads = set()       # ... those callers (alive, not hung: they end by themselves when `hold` is set)
         self.call_ops = []          # (id, raised, kind of the call of the history the digester ran in | None)   multi-thread runs
         self.hook = None            # called with the item id at every digester / on_toxic call (scheduled runs: Lin.dg)
 
@@ -913,8 +978,9 @@ class Rig:
         with self.cv:
             self.free_run = True
             self.cv.notify_all()
+        self.hold.set()
         # a call that was declared hung is still running: end it first (it may hold the lock the others wait for)
-        kill_threads(self.spawned, 0.3)
+        kill_threads([t for t in self.spawned if t not in self.held_threads], 0.3)
         for ps in self.passes.values():
             if ps.thread is not None:
                 ps.thread.join(0.5)
@@ -1082,6 +1148,21 @@ class Rig:
             w._hrig = self
             self.objs[i] = w
             return lambda: lys.ingest(w)
+        if o[0] == "iodd":          # ingest of an item whose created_at is timezone-aware / not a datetime (ingest never looks at it)
+            self.outs[i], self.types[i] = eff_out(self.cfg, o, i), o[1]
+            content = {"v": i}
+            if o[1] == TOXIC:
+                content["secret"] = True
+            elif self.dd:
+                content = dd_content(o[1], self.outs[i], i)
+            w = self.RealWaste(waste_type=self.wt[o[1]], content=content, source="h", created_at=ODD_STAMPS[o[2]]())
+            w._hev = [i]
+            w._hrig = self
+            self.objs[i] = w
+            return lambda: lys.ingest(w)
+        if o[0] == "dbad":          # digest(max_items=<truthy, not an integer>)
+            bad = BAD_MAX_ITEMS[o[1]]
+            return lambda: lys.digest(bad)
         if o[0] == "twin":          # a distinct Waste object that is == the one of event o[1] (own digester outcome)
             src = self.objs[o[1]]
             self.outs[i], self.types[i] = o[2], self.types[o[1]]
@@ -1162,6 +1243,24 @@ class Drive:
         self.cum_rep = self.cum_silent = self.cum_exp = 0
         self.open_labels = set()
         self.stopped = None
+        self.n_raised = 0           # calls of this history that raised so far
+
+    def status_of_queue(self):
+        """get_queue_status() - the one accessor that takes the lock.  After a call of the history has raised it is made under the
+        watchdog too: the property names ingest / digest / autophagy as the calls that return, so an accessor that does not come back
+        is not judged here (the next call of the history is); the row is then read without the lock."""
+        lys = self.rig.lys
+        if not self.n_raised:
+            return lys.get_queue_status(), False
+        try:
+            return common.call_with_watchdog(lys.get_queue_status, min(self.chk._timeout(), 0.5)), False
+        except common.Hang:
+            q = list(getattr(lys, "_queue", []))
+            by = {}
+            for w in q:
+                t = getattr(getattr(w, "waste_type", None), "value", None)
+                by[t] = by.get(t, 0) + 1
+            return {"size": len(q), "capacity": lys.max_queue_size, "by_type": by}, True
 
     def trace(self):
         rig = self.rig
@@ -1174,12 +1273,16 @@ class Drive:
         before = rig.queue_ids()
         ncalls = len(rig.calls)
         rig.begin_op()
-        paused, bad = False, False
+        paused, bad, raised = False, False, None
         if o[0] == "adv":
             rig.clock.t += o[1]
             ret, row = None, [0]
         elif o[0] == "setthr":
             lys.auto_digest_threshold = o[1]      # a plain public attribute, reassigned between two calls
+            ret, row = None, [0]
+        elif o[0] == "setret":
+            # retention_period, likewise: a timedelta of o[1] hours, or something that is not a timedelta
+            lys.retention_period = BAD_PERIODS[o[1]] if isinstance(o[1], str) else o[1] * HOUR
             ret, row = None, [0]
         elif is_pass(o) and ((o[0] == "pbegin") == (o[1] in open_labels)):
             ret, row, bad = None, [-5], True        # label in use / no such pass: not a call
@@ -1191,13 +1294,17 @@ class Drive:
                     st = rig.pass_step(o[1], chk._timeout())
                 else:
                     st = None
-                    opt, box = _spawn(rig.do(o, nid))
+                    opt, box, done = _spawn_call(rig.do(o, nid), rig.hold)
                     rig.spawned.append(opt)
-                    opt.join(chk._timeout())
-                    if opt.is_alive():
+                    if not done.wait(chk._timeout()):
                         raise common.Hang()
                     if "e" in box:
-                        raise box["e"]
+                        if not isinstance(box["e"], Exception):
+                            raise box["e"]
+                        # the call RAISED: the exception went to its caller, who handles it; the history goes on (from other threads)
+                        raised = _Raised(box["e"])
+                        self.n_raised += 1
+                        rig.held_threads.add(opt)
                     ret = box.get("r")
             except common.Hang:
                 # with another thread parked inside a digester a call may legitimately WAIT for it (a digester is
@@ -1206,15 +1313,15 @@ class Drive:
                 if open_labels:
                     stuck = not rig.settle(chk._timeout())
                     if not is_pass(o):
-                        opt.join(chk._timeout())
-                        stuck = stuck or opt.is_alive()
+                        stuck = stuck or not done.wait(chk._timeout())
                 chk.hangs_seen += 1 if stuck else 0
                 chk.waits_seen += 0 if stuck else 1
                 # what the call that does not return is doing: executing (a loop that never ends) or blocked
                 culprit = (rig.passes[o[1]].thread if is_pass(o) and o[1] in rig.passes else None) if is_pass(o) else opt
                 loc, moved = where_is(culprit) if stuck else (None, False)
                 steps.append({"op": o, "hang": stuck, "waited": not stuck, "before": before,
-                              "parked": sorted(open_labels), "at": loc, "spinning": moved})
+                              "parked": sorted(open_labels), "at": loc, "spinning": moved,
+                              "raised_before": [(j, s_["op"], s_["raised"]) for j, s_ in enumerate(steps) if s_.get("raised")]})
                 self.stopped = {"steps": steps, "hang": stuck, "at": idx}
                 return [-999] if stuck else [-997]
             if st is not None:
@@ -1227,11 +1334,13 @@ class Drive:
                     if ps.err is not None:
                         raise ps.err
                     ret = ps.ret
-            if paused:
+            if raised is not None:
+                row = [4]
+            elif paused:
                 row = [3]
             elif is_ingest(o) or o[0] in ("prune", "peek", "clear"):
                 row = [0] if ret is None else [-7]
-            elif o[0] in ("digest", "pbegin", "pstep"):
+            elif o[0] in ("digest", "dbad", "pbegin", "pstep"):
                 rec = pairs(ret.recycled)
                 eids = err_ids(ret.errors)
                 row = [1, int(ret.success is True), ret.disposed, len(ret.errors)] + eids + [len(rec)] + [x for p in rec for x in p]
@@ -1243,7 +1352,7 @@ class Drive:
         if is_ingest(o):
             self.cum_silent += sum(1 for c in calls if c[2])
         st = lys.get_statistics()
-        qs = lys.get_queue_status()
+        qs, blocked = self.status_of_queue()
         after = rig.queue_ids()
         pool = before + ([nid] if is_ingest(o) else [])
         rig.end_op([x for x in pool if x not in after])
@@ -1258,6 +1367,7 @@ class Drive:
         row += [self.cum_rep, self.cum_silent, self.cum_exp]
         steps.append({"op": o, "new": nid if is_ingest(o) else None, "before": before, "after": after,
                       "calls": calls, "paused": paused, "bad": bad, "open": sorted(open_labels),
+                      "raised": None if raised is None else raised.text, "observer_blocked": blocked,
                       "ret": (None if ret is None else
                               (ret if isinstance(ret, int) else repr(ret) if not hasattr(ret, "disposed") else
                                {"disposed": ret.disposed, "nerr": len(ret.errors),
@@ -1274,7 +1384,7 @@ class Drive:
 
 
 def is_ingest(o):
-    return o[0] in ("ingest", "ierr", "isens", "twin", "again") or (o[0] == "prune" and o[2] in PRUNING)
+    return o[0] in ("ingest", "iodd", "ierr", "isens", "twin", "again") or (o[0] == "prune" and o[2] in PRUNING)
 
 
 def is_pass(o):
@@ -1346,6 +1456,18 @@ class C13(Check):
             "queue, counters, DigestResults, recycling bin and ITS OWN toxic callback (a callback handed an item of another lysosome is reported too). "
             "Enumeration: two lysosomes from one mapping (the second built before / after the first call, threshold 1 on the second), every "
             "history of depth <=2 (quick) / <=3 (thorough) over {ingest_sensitive with a returning / raising callback, ingest, digest} x {first, second}. "
+            "ERROR PATHS (every 8th generated history, 5% of the calls of the others, an enumeration, a corpus case, two scheduled programs): calls that "
+            "RAISE inside the object as operations of the history language - autophagy() while an item whose created_at is timezone-aware "
+            "(datetime.now(timezone.utc), as AutophagyDaemon stamps its own records) / None / a string / a date is queued (iodd t kind out = ingest of such an "
+            "item; modelled: IngestOdd), autophagy() after retention_period was assigned something that is not a timedelta on the live object "
+            "(setret 'int'|'none'|'float'; setret n = a timedelta again; modelled: SetRet), digest(max_items = 1.5 | '2' | [1]) (dbad; modelled: DigestBad) - "
+            "each FOLLOWED by further calls of every kind: every call of a history is made from a thread of its own under the watchdog, and the "
+            "caller of a call that raised handles the exception and STAYS ALIVE to the end of the history (what the call did not give back stays owned); "
+            "the outcome of a raising call is the row [4] (RRaised), the state rows after it are compared like any other, and a later call that does "
+            "not return is reported with the call that raised before it. Enumeration: every history of depth <=3 over 7 letters (quick) / <=4 over 7 and "
+            "<=3 over 9 (thorough) of {ingest of an odd item, autophagy, digest(1), ingest_sensitive, digest(1.5), retention_period = 24, retention_period = "
+            "timedelta(0), ingest, clock} that contains an error letter, threshold 3. Scheduled: autophagy() raising in one thread while the other ingests, "
+            "digests the odd item away and sweeps (its sweep raises or not, depending on the schedule); digest(1.5) + autophagy() raising next to a digest pass. "
             "Validation only: 2 real threads x 1..3 calls without the scheduler, random pre-fill (half of the runs: items whose digesters raise) and start "
             "offsets (300 quick / 4000 thorough runs), queue bound read at the return of every call. non-trivial = at least one item left the queue "
             "(scheduled runs: the threads' steps alternated at least once); distinct by case content")
@@ -1363,6 +1485,12 @@ class C13(Check):
                   "history from the caller's digesters mapping, used in any order on one clock): every lysosome of every such world satisfies all "
                   "of the above for its own queue, counters, results, bin and on_toxic log; it ends in exactly the state of the single-object history "
                   "made of the calls addressed to it; a call on one leaves the others as they were; nothing writes the caller's mapping. "
+                  "Error paths: exactly digest(<not an integer>) and autophagy() over a queue holding an item it cannot compare raise, and a call that "
+                  "raises leaves queue, counters, bin, on_toxic log and fates as they were (so all of the above holds in histories with such calls, which "
+                  "the history language contains); in the threads model the thread goes on to its next call and every thread with something left to do "
+                  "can move; on the lock machine a call may raise at ANY point of its program - the exception leaves through the `with self._lock:` blocks "
+                  "it is inside, each giving its level back (unwind) - and threads making any calls, any of them raising anywhere, never reach a stuck "
+                  "configuration (Examples.v: the same program with the release skipped on the error path does). "
                   "Threads: any number of threads, each with any list of calls, under any "
                   "schedule, started after any history: every such run is an interleaved history (so the bound holds after every step - in "
                   "particular at the return of every call of every thread - and conservation, exactly-once reporting, the toxic statements hold "
@@ -1407,7 +1535,8 @@ class C13(Check):
                "module-level Waste binding is put on the virtual clock like lysosome.Waste; whether it prunes is decided by the mode the "
                "case names and checked against its PruneResult",
                "the retention_hours -> timedelta conversion is outside the model: the stored retention_period is read back from "
-               "the object and compared with the model's configuration on every case (row 0)",
+               "the object and compared with the model's configuration on every case (row 0); a reassigned retention_period is modelled as whole hours "
+               "(Some h) or 'not a timedelta' (None)",
                "Waste.created_at's default factory (real datetime.now bound at import) is put on the virtual clock by rebinding "
                "lysosome.Waste to a dataclass subclass that only changes that default; lysosome.datetime is rebound likewise",
                "overlapping calls are modelled and driven at digester-call granularity (a thread is parked inside a digester / "
@@ -1416,6 +1545,12 @@ class C13(Check):
                "harness/c13.py:Lin, which maps what the threads did to steps of the threads model (a step of an ingesting call / autophagy = the end of its "
                "outermost critical section; a step of digest() = the end of its critical section, then each further digester call made outside "
                "the lock, then its return) and reads _queue / _total_ingested / _by_type without the lock at those points",
+               "error paths: `with self._lock:` gives the lock back when an exception leaves the block (CPython; the translator accepts no other "
+               "form of acquisition, so a hand-written acquire()/release() pair fails the generated obligation); a raising call is modelled as ONE step "
+               "that changes nothing (autophagy()'s list comprehension raises before self._queue is assigned; digest()'s slice raises before anything "
+               "is taken) - the correspondence compares the full state row after every such call; the caller thread of a call that raised is parked by the "
+               "harness until the history ends (a dead thread's ident may be reused, and a re-entrant lock would then admit a stranger); after a call has "
+               "raised, get_queue_status() - an accessor that takes the lock - is read under the watchdog and, if it does not come back, without the lock",
                "a hung call is ended by raising an exception asynchronously in its thread (PyThreadState_SetAsyncExc); nothing is concluded "
                "from a run after that point",
                "two-thread behaviour below that granularity (source lines of digest() outside the lock) is validated by the final-state "
@@ -1427,7 +1562,12 @@ class C13(Check):
                    "items they have taken and not yet handed to a digester count as in flight, and 'reported' is judged when no call is in progress",
                    "'after every call' with several threads: at the return of every call of every thread (other threads may be in the middle of "
                    "their own calls; a critical section that has begun and not ended has not taken effect yet)",
-                   "auto_digest_threshold may be reassigned between calls; max_queue_size is fixed after construction (lowering it below the current "
+                   "'every call returns' is read as: control comes back to the caller - by a return, or, on a MALFORMED input (digest(max_items) with a "
+                   "truthy non-integer; autophagy() while an item whose created_at is timezone-aware / not a datetime is queued or while retention_period is "
+                   "not a timedelta), by an exception the caller handles; after such a call the object must be as usable as before: every later call, from "
+                   "this thread or any other, returns. An exception on a well-formed input is reported (C13/raises). waste_type / content / source of an item "
+                   "are well-formed throughout; only created_at, retention_period and max_items are varied over malformed values",
+                   "auto_digest_threshold and retention_period may be reassigned between calls; max_queue_size is fixed after construction (lowering it below the current "
                    "queue length would break the bound by itself)",
                    "'the toxic callback' of an item is the on_toxic of the lysosome it was ingested into: with several lysosomes in one program "
                    "each is judged on its own callback (an item digested by lysosome B that only reaches the callback of lysosome A has reached ITS "
@@ -1535,19 +1675,25 @@ class C13(Check):
             if j < 0.37:
                 return self._rand_prune(rng, self._rand_out(rng, i), True)
             t = rng.choice([0, 1, 2, 3, 0, 1, 3, TOXIC])
+            if j < 0.42:
+                return ["iodd", t, rng.choice(sorted(ODD_STAMPS)), self._rand_out(rng, i)]
             off = 0 if rng.random() < 0.7 else rng.choice([-1, -2, -3, 1])
             return ["ingest", t, off, self._rand_out(rng, i)]
         k = (k - ing) / (1 - ing)
-        if k < 0.40:
+        if k < 0.38:
             return ["digest", rng.choice([None, None, 0, 1, 1, 2, 3, 5, -1, -2])]
         if k < 0.60:
             return ["auto"]
-        if k < 0.80:
+        if k < 0.78:
             return ["adv", rng.choice([0, 1, 1, 2, 3])]
-        if k < 0.90:
+        if k < 0.87:
             return self._rand_side(rng, i)
-        if k < 0.96:
+        if k < 0.92:
             return ["setthr", rng.choice([1, 1, 2, 3, 4, 9, 10])]
+        if k < 0.95:
+            return ["dbad", rng.choice(sorted(BAD_MAX_ITEMS))]
+        if k < 0.98:
+            return ["setret", rng.choice(sorted(BAD_PERIODS) + [0, 1, 2, 5])]
         return self._rand_prune(rng, None, False)
 
     def _rand_case(self, rng, maxlen):
@@ -1560,6 +1706,67 @@ class C13(Check):
             ops.append(o)
             if is_ingest(o):
                 i += 1
+        return {"cfg": cfg, "ops": ops}
+
+    def _rand_error_case(self, rng, maxlen):
+        """histories aimed at the ERROR PATHS: calls that raise inside the object - autophagy() while an item with a timezone-aware /
+        non-datetime created_at is queued or after retention_period was assigned something that is not a timedelta, digest(<not an
+        integer>) - each followed by further calls of every kind (every call of a history is made from a thread of its own; the caller
+        of a call that raised handles the exception and stays alive): the odd item is digested away / emergency-processed / auto-digested
+        or stays, retention_period is assigned a timedelta again or not, and the history always ends with calls after the last error."""
+        heavy = rng.random() < 0.3
+        cfg = self._rand_cfg(rng, heavy)
+        ops, i = [], 0
+
+        def ing():
+            nonlocal i
+            j = rng.random()
+            if j < 0.35:
+                o = ["iodd", rng.choice([0, 1, 2, 3, TOXIC]), rng.choice(sorted(ODD_STAMPS)), self._rand_out(rng, i)]
+            elif j < 0.5:
+                o = ["isens", self._rand_out(rng, i)]
+            elif j < 0.6:
+                o = ["ierr", self._rand_out(rng, i)]
+            else:
+                o = ["ingest", rng.choice([0, 1, 2, 3, TOXIC]), rng.choice([0, 0, -1, -2]), self._rand_out(rng, i)]
+            i += 1
+            return o
+
+        def err():
+            j = rng.random()
+            if j < 0.6:
+                return [["auto"]]
+            if j < 0.8:
+                return [["dbad", rng.choice(sorted(BAD_MAX_ITEMS))]]
+            return [["setret", rng.choice(sorted(BAD_PERIODS))], ["auto"]]
+
+        def other():
+            j = rng.random()
+            if j < 0.45:
+                return ing()
+            if j < 0.7:
+                return ["digest", rng.choice([None, 1, 1, 2, 3])]
+            if j < 0.82:
+                return ["auto"]
+            if j < 0.9:
+                return ["adv", rng.choice([1, 2, 3])]
+            if j < 0.95:
+                return ["setret", rng.choice([0, 1, 2])]
+            return self._rand_side(rng, i)
+        for _ in range(rng.randint(1, 3)):
+            ops.append(ing())
+        if not any(o[0] == "iodd" for o in ops) and rng.random() < 0.7:
+            ops.insert(rng.randrange(len(ops) + 1), ["iodd", rng.choice([0, 1, 3, TOXIC]), rng.choice(sorted(ODD_STAMPS)), self._rand_out(rng, i)])
+            i += 1
+        n = rng.randint(4, max(5, maxlen))
+        while len(ops) < n:
+            if rng.random() < 0.3:
+                ops += err()
+            ops.append(other())
+        ops += err()
+        for _ in range(rng.randint(2, 4)):      # ... and the calls after the last error
+            o = other()
+            ops.append(o if o[0] not in ("adv", "setret", "peek", "clear") else ing())
         return {"cfg": cfg, "ops": ops}
 
     def _rand_twin_case(self, rng, maxlen):
@@ -1637,6 +1844,8 @@ class C13(Check):
                 return ["isens", out(i)]
             if j < 0.42:
                 return self._rand_prune(rng, out(i), True)
+            if j < 0.47:
+                return ["iodd", rng.choice([0, 1, 2, 3, TOXIC]), rng.choice(sorted(ODD_STAMPS)), out(i)]
             return ["ingest", rng.choice([0, 1, 2, 3, TOXIC]), rng.choice([0, 0, 0, -1, -2]), out(i)]
         ops, i, q = [], 0, 0
         sim = dict(cfg)              # the configuration in force (the threshold may be reassigned), for the estimates only
@@ -1671,8 +1880,10 @@ class C13(Check):
                 kk = rng.choice([None, 1, 2])
                 ops.append(["digest", kk])
                 q -= self._sim_take(q, kk)
-            elif k < 0.96:
+            elif k < 0.955:
                 ops.append(["auto"])
+            elif k < 0.965:
+                ops.append(["dbad", rng.choice(sorted(BAD_MAX_ITEMS))])
             elif k < 0.975:
                 ops.append(self._rand_side(rng, i))
             elif k < 0.99:
@@ -1735,8 +1946,8 @@ class C13(Check):
                 o = ["isens", self._rand_out(rng, slots[j])]
             if o[0] == "ierr" and 2 not in keys:
                 o = ["isens", o[1]]
-            if o[0] == "ingest" and o[1] != TOXIC and o[1] not in keys:
-                o = ["ingest", rng.choice(keys) if keys and rng.random() < 0.6 else TOXIC, o[2], o[3]]
+            if o[0] in ("ingest", "iodd") and o[1] != TOXIC and o[1] not in keys:
+                o = [o[0], rng.choice(keys) if keys and rng.random() < 0.6 else TOXIC, o[2], o[3]]
             ops.append(["on", j, o])
             slots[j] += 1 if is_ingest(o) else 0
             ncalls += 1
@@ -1767,6 +1978,8 @@ class C13(Check):
             maxlen = 14 if (self.tier == "quick" or j % 4) else 30
             if j % 8 == 7:
                 out.append(self._rand_sched_case(rng))
+            elif j % 8 == 6:
+                out.append(self._rand_error_case(rng, min(maxlen, 16)))
             elif j % 8 == 2:
                 out.append(self._rand_world_case(rng, min(maxlen, 16)))
             elif j % 4 == 1:
@@ -1792,7 +2005,28 @@ class C13(Check):
             for d in range(1, depth + 1 - (1 if n == 2 else 0)):
                 for combo in itertools.product(alpha, repeat=d):
                     out.append({"cfg": cfg, "ops": [list(o) for o in combo]})
-        return out + self._exhaustive_overlaps() + self._exhaustive_wide() + self._exhaustive_worlds() + self._explored_sched_cases()
+        return (out + self._exhaustive_overlaps() + self._exhaustive_wide() + self._exhaustive_errors() + self._exhaustive_worlds()
+                + self._explored_sched_cases())
+
+    ERROR_ALPHABET = [["iodd", 1, "aware", []], ["auto"], ["digest", 1], ["isens", []], ["dbad", "float"], ["setret", "int"], ["setret", 0],
+                      ["ingest", 0, 0, [0]], ["adv", 1]]
+
+    def _exhaustive_errors(self):
+        """every history of depth <=3 (quick, 7 letters) / <=4 (thorough, 7 letters; <=3 over all 9) over {ingest of an item with a timezone-aware
+        created_at, autophagy, digest(1), ingest_sensitive, digest(1.5), retention_period = 24 (not a timedelta), retention_period =
+        timedelta(0), ingest, clock} on a lysosome with threshold 3 (the third queued item auto-digests) - every call from a thread of
+        its own, the callers of raising calls alive"""
+        cfg = {"max": 4, "thr": 3, "ret": 1, "cb": True}
+        plans = [(3, self.ERROR_ALPHABET[:7])] if self.tier == "quick" else [(4, self.ERROR_ALPHABET[:7]), (3, self.ERROR_ALPHABET)]
+        out, seen = [], set()
+        for depth, alpha in plans:
+            for d in range(1, depth + 1):
+                for combo in itertools.product(alpha, repeat=d):
+                    key = repr(combo)
+                    if key not in seen and any(o[0] in ("iodd", "dbad", "setret") for o in combo):
+                        seen.add(key)
+                        out.append({"cfg": cfg, "ops": [list(o) for o in combo]})
+        return out
 
     WIDE_ALPHABET = [["ingest", 0, 0, [0, 1]], ["ierr", [0]], ["prune", [], "force"], ["clear"], ["setthr", 1], ["digest", None],
                      ["peek", 0], ["ingest", 3, 0, None]]
@@ -1962,6 +2196,10 @@ class C13(Check):
         """the `op` of the model for a call made by a scheduler thread (ids are given by the model in ingestion order)"""
         if o[0] == "ingest":
             return f"Ingest {TYPES[o[1]]} {cz(o[2])} {self._cout(eff_out(cfg, o, slot))}"
+        if o[0] == "iodd":
+            return f"IngestOdd {TYPES[o[1]]} {self._cout(eff_out(cfg, o, slot))}"
+        if o[0] == "dbad":
+            return "DigestBad"
         if o[0] == "ierr":
             return f"IngestError {self._cout(eff_out(cfg, o, slot))}"
         if o[0] == "isens":
@@ -1980,6 +2218,8 @@ class C13(Check):
         """the `rop` of the model for one call / assignment of a history on one lysosome"""
         if o[0] == "setthr":
             return f"SetThr {cz(o[1])}"
+        if o[0] == "setret":
+            return "SetRet None" if isinstance(o[1], str) else f"SetRet (Some {cz(o[1])})"
         if o[0] == "pbegin":
             return f"ROp (PassBegin {cz(o[1])} {copt(o[2])})"
         if o[0] == "pstep":
@@ -1990,7 +2230,7 @@ class C13(Check):
 
     def coq_case(self, case):
         if "two_threads" in case:          # replay of a finding of the random real-thread runs: nothing for the model to run
-            return "(mkConfig 0 0 0 false, [], [], [], ([], []))"
+            return "(mkConfig 0 0 (Some 0) false, [], [], [], ([], []))"
         if "world" in case:
             wd = case["world"]
             slots = [0] * len(wd["cfgs"])
@@ -2000,7 +2240,7 @@ class C13(Check):
                 if e[0] == "new":
                     c = wd["cfgs"][e[1]]
                     built += 1
-                    wops.append(f"WNew (mkConfig {cz(c['max'])} {cz(c['thr'])} {cz(c['ret'])} {cbool(c['cb'])})")
+                    wops.append(f"WNew (mkConfig {cz(c['max'])} {cz(c['thr'])} (Some {cz(c['ret'])}) {cbool(c['cb'])})")
                 elif e[0] == "adv":
                     wops.append(f"WAdv {cz(e[1])}")
                 else:
@@ -2010,7 +2250,7 @@ class C13(Check):
                         slots[j] += 1 if is_ingest(o) else 0
                     else:
                         wops.append(f"WOn {max(j, 0)} (SetThr 0)")      # no such lysosome (yet): not a call, whatever it is
-            return f"(mkConfig 0 0 0 false, [], [], [], ({czl(wd['keys'])}, {clist(wops)}))"
+            return f"(mkConfig 0 0 (Some 0) false, [], [], [], ({czl(wd['keys'])}, {clist(wops)}))"
         if "sched" in case:
             # real threads under the deterministic scheduler: the programs, and the order in which their steps took effect
             tc = case["sched"]["program"]
@@ -2028,7 +2268,7 @@ class C13(Check):
                     row.append(self._op_term(cfg, o, slot))
                     slot += 1
                 progs.append(clist(row))
-            return (f"(mkConfig {cz(cfg['max'])} {cz(cfg['thr'])} {cz(cfg['ret'])} {cbool(cfg['cb'])}, {clist(pre)}, "
+            return (f"(mkConfig {cz(cfg['max'])} {cz(cfg['thr'])} (Some {cz(cfg['ret'])}) {cbool(cfg['cb'])}, {clist(pre)}, "
                     f"{clist(progs)}, {czl(case.get('_lin', []))}, ([], []))")
         cfg = case["cfg"]
         ops = []
@@ -2042,6 +2282,14 @@ class C13(Check):
                 out = eff_out(cfg, o, len(ev))
                 atomic(f"Ingest {TYPES[o[1]]} {cz(o[2])} {self._cout(out)}")
                 ev.append((o[1], t + o[2], out))
+            elif o[0] == "iodd":
+                out = eff_out(cfg, o, len(ev))
+                atomic(f"IngestOdd {TYPES[o[1]]} {self._cout(out)}")
+                ev.append((o[1], None, out))
+            elif o[0] == "dbad":
+                atomic("DigestBad")
+            elif o[0] == "setret":
+                ops.append("SetRet None" if isinstance(o[1], str) else f"SetRet (Some {cz(o[1])})")
             elif o[0] == "twin":        # value-equal copy: same type and created_at, its own outcome
                 ty, cr, _ = ev[o[1]]
                 atomic(f"Ingest {TYPES[ty]} {cz(cr - t)} {self._cout(o[2])}")
@@ -2081,7 +2329,7 @@ class C13(Check):
             else:
                 atomic(f"Advance {cz(o[1])}")
                 t += o[1]
-        return f"(mkConfig {cz(cfg['max'])} {cz(cfg['thr'])} {cz(cfg['ret'])} {cbool(cfg['cb'])}, {clist(ops)}, [], [], ([], []))"
+        return f"(mkConfig {cz(cfg['max'])} {cz(cfg['thr'])} (Some {cz(cfg['ret'])}) {cbool(cfg['cb'])}, {clist(ops)}, [], [], ([], []))"
 
     # -- the property, on the implementation's trace ------------------------
     def monitor(self, case, obs, trace):
@@ -2132,14 +2380,20 @@ class C13(Check):
         n_ok_in_digest = 0     # items whose digester returned inside a digest() call of the history
         disposed_returned = 0
         results = []           # (call, disposed, error ids) of every returned DigestResult, for the message
+        odd = set()            # items whose created_at is timezone-aware / not a datetime
+        bad_retention = False  # retention_period is not a timedelta at this point of the history
         for i, st in enumerate(steps):
             o = st["op"]
             where = f"call #{i} {o}"
             if st.get("hang"):
                 hist = [s["op"] for s in steps]
+                rb = st.get("raised_before") or []
                 return Violation("C13/hang", f"{where} did not return within the watchdog time"
                                              + (f" [the call is still {'EXECUTING (a loop that does not end)' if st.get('spinning') else 'blocked'} "
                                                 f"at {st['at']}]" if st.get("at") else "")
+                                             + (f" - it is made from another thread after call #{rb[-1][0]} {rb[-1][1]} had raised {rb[-1][2]} "
+                                                f"(an error its caller handled; that caller thread is alive): the call that raised did not give the "
+                                                f"lock back" if rb else "")
                                              + (f" (nor after the digesters other threads {st['parked']} were parked in had returned)" if st.get("parked") else "")
                                              + f"; history {hist} "
                                              f"with max_queue_size={cfg['max']} auto_digest_threshold={cfg['thr']} (queue before: {st['before']})")
@@ -2148,10 +2402,18 @@ class C13(Check):
             before, after, calls = st["before"], st["after"], st["calls"]
             new = st["new"]
             label = o[1] if is_pass(o) else None
+            if o[0] == "setret":
+                bad_retention = isinstance(o[1], str)
+            if o[0] == "iodd" and new is not None:
+                odd.add(new)
+            if st.get("raised") and not malformed_call(o, [x for x in before if x in odd], bad_retention):
+                # every call returns: on a well-formed input an exception is not a return
+                return Violation("C13/raises", f"{where} raised {st['raised']} (queue before: {before}; no item with an odd created_at is "
+                                               f"queued, retention_period is a timedelta, the argument is well-formed)")
             if new is not None:
                 ningested += 1
                 types[new] = (TOXIC if o[0] == "isens" else 2 if o[0] == "ierr" else 1 if o[0] == "prune" else
-                              types[o[1]] if o[0] in ("twin", "again") else o[1])
+                              types[o[1]] if o[0] in ("twin", "again") else o[1])      # ingest / iodd: the type is o[1]
             # bounded queue
             if cfg["max"] >= 2 and len(after) > cfg["max"]:
                 return Violation("C13/queue-unbounded", f"after {where} the queue holds {len(after)} items > max_queue_size {cfg['max']}")
@@ -2237,7 +2499,7 @@ class C13(Check):
                         return Violation("C13/toxic-recycled", f"{where}: DigestResult.recycled refers to sensitive item {v}")
                 if r.get("recycled_secret"):
                     return Violation("C13/toxic-recycled", f"{where}: DigestResult.recycled holds the content of a sensitive item")
-            if o[0] == "digest":
+            if o[0] == "digest" and isinstance(r, dict):
                 ok_now = sum(1 for x in gone if fate[x] == "digested")
                 bad_now = sum(1 for x in gone if fate[x] == "raised-in-digest")
                 if r["disposed"] != ok_now or r["nerr"] != bad_now:
@@ -2259,7 +2521,7 @@ class C13(Check):
                 if disposed_returned != n_ok_in_digest:
                     return Violation("C13/conservation", f"after {where} (no call in progress): the returned DigestResults {results} count {disposed_returned} "
                                                          f"disposed items but {n_ok_in_digest} digesters returned inside digest() calls")
-            if o[0] == "auto" and st["ret"] != len(gone):
+            if o[0] == "auto" and not st.get("raised") and st["ret"] != len(gone):
                 return Violation("C13/conservation", f"{where} returned {st['ret']} but {len(gone)} items expired")
             if s["total_ingested"] != len(after) + n_inflight + ndig + len(must_report) + n_silent + n_exp:
                 return Violation("C13/conservation", f"after {where}: ingested {s['total_ingested']} != queued {len(after)} + taken by a digest() call in progress "
@@ -2337,11 +2599,18 @@ class C13(Check):
                 ks.append({"peek": "get_recycled(key)", "clear": "clear_recycling_bin"}[o[0]])
             elif o[0] == "setthr":
                 ks.append("threshold-reassigned" + (":to-1" if o[1] == 1 else ""))
+            elif o[0] == "setret":
+                ks.append("retention_period-reassigned" + (":not-a-timedelta" if isinstance(o[1], str) else ""))
+            elif o[0] == "iodd":
+                ks.append("error-path:item-with-odd-created_at:" + o[2])
         if not isinstance(trace, dict):
             return ks
         if any(is_pass(o) for o in case["ops"]):
             ks.append("overlapping-digest-calls")
+        n_raised_so_far = 0
         for s in trace.get("steps", []):
+            seen_raise = n_raised_so_far > 0
+            n_raised_so_far += 1 if s.get("raised") else 0
             if s.get("hang"):
                 ks.append("hang")
                 continue
@@ -2349,6 +2618,13 @@ class C13(Check):
                 ks.append("overlap:waited-for-digester" if s.get("waited") else "overlap:not-a-call")
                 continue
             o = s["op"]
+            if s.get("raised"):
+                ks.append("error-path:" + {"auto": "autophagy", "dbad": "digest(not-an-integer)"}.get(o[0], o[0]) + "-raised")
+                if s["open"]:
+                    ks.append("error-path:raised-during-a-digest-call")
+                continue
+            if seen_raise and (is_ingest(o) or o[0] in ("digest", "auto", "pbegin", "pstep")):
+                ks.append("error-path:call-from-another-thread-after-a-raise:" + ("ingest" if is_ingest(o) else "digest" if o[0] != "auto" else "autophagy"))
             if is_pass(o):
                 if len(s["open"]) >= 2:
                     ks.append("overlap:two-or-more-calls-in-progress")
@@ -2456,7 +2732,7 @@ class C13(Check):
             ops = []
             for _ in range(rng.randint(1, 3)):
                 o = op(i)
-                while o[0] in ("adv", "clear", "setthr"):       # clear_recycling_bin would void the final-state check of the bin
+                while o[0] in ("adv", "clear", "setthr", "setret"):       # clear_recycling_bin would void the final-state check of the bin
                     o = op(i)
                 ops.append(o)
                 i += 1            # ids are reserved per slot whether or not the op ingests
@@ -2471,6 +2747,12 @@ class C13(Check):
     @staticmethod
     def _pre_ops(tc):
         return tc.get("pre_ops") or [["ingest", 0, 0, [0]] for _ in range(tc["pre"])]
+
+    @classmethod
+    def _has_odd(cls, tc):
+        """does the program ingest an item with a timezone-aware / non-datetime created_at (autophagy() may then raise, depending
+        on the schedule: whether the item is still queued when the sweep runs)"""
+        return any(o[0] == "iodd" for o in cls._pre_ops(tc)) or any(o[0] == "iodd" for ops in tc["threads"] for o in ops)
 
     def _final_check(self, rig, cfg, rets, n_ing, desc):
         """the monitor's invariants on the quiescent final state of a multi-thread run -> None | Violation"""
@@ -2490,7 +2772,7 @@ class C13(Check):
                 return Violation("C13/conservation", f"{desc}: item {cid} processed and still queued")
         n_ok = sum(1 for cs in per.values() if not cs[0][1])
         n_raise = sum(1 for cs in per.values() if cs[0][1])
-        n_exp = sum(r for rr in rets for (o, r) in rr if o[0] == "auto")
+        n_exp = sum(r for rr in rets for (o, r) in rr if o[0] == "auto" and not isinstance(r, _Raised))
         n_rep = sum(len(r.errors) for rr in rets for (o, r) in rr if o[0] == "digest")
         n_disp = sum(r.disposed for rr in rets for (o, r) in rr if o[0] == "digest")
         if len(set(q)) != len(q) or st["queue_size"] != len(q):
@@ -2572,6 +2854,7 @@ class C13(Check):
                 fns.append(row)
             barrier = threading.Barrier(2)
             snaps, boxes = [], [{}, {}]
+            has_odd = self._has_odd(tc)
 
             def body(k):
                 try:
@@ -2583,7 +2866,12 @@ class C13(Check):
                             pass
                     for (o, fn) in fns[k]:
                         rig.tls.op = o[0]
-                        r = fn()
+                        try:
+                            r = fn()
+                        except Exception as e:  # noqa
+                            if not malformed_call(o, has_odd, False):
+                                raise
+                            r = _Raised(e)      # an error path: the thread handles the exception and goes on
                         # "after every call": an unlocked reading, valid at any instant (the queue never exceeds the bound)
                         snaps.append((k, o, len(getattr(lys, "_queue", []))))
                         rets[k].append((o, r))
@@ -2653,6 +2941,15 @@ class C13(Check):
         # capacity 3 = threshold - 1: ingests at capacity against autophagy (nothing expires) and a partial digest
         {"cfg": {"max": 3, "thr": 4, "ret": 2, "cb": True}, "pre": 3,
          "threads": [[["isens", None], ["ingest", 0, 0, [2]]], [["ingest", 3, 0, None], ["auto"], ["digest", 1]]]},
+        # ERROR PATHS.  An item with a timezone-aware created_at is queued: thread 0's autophagy() raises (it handles the error and goes
+        # on ingesting) while thread 1 ingests, digests the odd item away and sweeps - its sweep raises or not, depending on the order
+        {"cfg": {"max": 4, "thr": 9, "ret": 1, "cb": True}, "pre": 1, "pre_ops": [["iodd", 1, "aware", []]], "quick_runs": 60,
+         "threads": [[["auto"], ["ingest", 0, 0, [0]]], [["isens", []], ["digest", 1], ["auto"]]]},
+        # digest(1.5) and autophagy() over an item whose created_at is None raising in one thread, the other inside a digest pass;
+        # then an ingest that reaches the threshold
+        {"cfg": {"max": 8, "thr": 3, "ret": 1, "cb": True}, "pre": 2, "pre_ops": [["ingest", 2, 0, None], ["iodd", 4, "none", []]],
+         "quick_runs": 60,
+         "threads": [[["dbad", "float"], ["auto"], ["isens", None]], [["digest", 1], ["auto"]]]},
     ]
 
     def run_sched(self, tc, prefix):
@@ -2696,6 +2993,7 @@ class C13(Check):
                     setattr(lys, k, DiagLock(s, type(v).__name__ == "RLock", k, info))
             fns, rets, errs = [], [[] for _ in tc["threads"]], []
             n_ing = tc["pre"]
+            has_odd = self._has_odd(tc)
             for tid, ops in enumerate(tc["threads"]):
                 row = []
                 for o in ops:
@@ -2709,13 +3007,15 @@ class C13(Check):
                             rig.tls.op = o[0]
                             lin.guard(lin.begin_call, tid, o, slot)
                             r = fn()
-                            lin.guard(lin.end_call, tid, r)
-                            rets[tid].append((o, r))
                         except sched.Deadlock:
                             raise
                         except Exception as e:  # noqa
-                            errs.append((tid, o, f"{type(e).__name__}: {e}"))
-                            return
+                            if not malformed_call(o, has_odd, False):
+                                errs.append((tid, o, f"{type(e).__name__}: {e}"))
+                                return
+                            r = _Raised(e)      # an error path: the thread handles the exception and goes on with its next call
+                        lin.guard(lin.end_call, tid, r)
+                        rets[tid].append((o, r))
                 fns.append(run)
             hung = False
             try:
@@ -2782,7 +3082,7 @@ class C13(Check):
             binraw = lys.get_recycled()
             n_rep = sum(len(r.errors) for rr in rets for (o, r) in rr if o[0] == "digest")
             n_silent = sum(1 for (_c, raised, op) in rig.call_ops if raised and op != "digest")
-            n_exp = sum(r for rr in rets for (o, r) in rr if o[0] == "auto")
+            n_exp = sum(r for rr in rets for (o, r) in rr if o[0] == "auto" and not isinstance(r, _Raised))
             obs.append([st["queue_size"], st["total_ingested"], st["total_digested"], st["total_recycled"]]
                        + [st["by_type"].get(t, -1) for t in TVAL] + [len(q)] + [tr(x) for x in q]
                        + [len(binraw)] + sorted(keynum(k) for k in binraw)
@@ -2890,7 +3190,7 @@ class C13(Check):
                 skipped += 1
                 continue
             got = []
-            runs, nseen, first, done = self.explore_sched(tc, bound, per, got)
+            runs, nseen, first, done = self.explore_sched(tc, bound, min(per, tc.get("quick_runs", per) * (1 if quick else 4)), got)
             total += runs
             distinct += nseen
             exhausted += 1 if done else 0
